@@ -429,7 +429,11 @@ func (g *gen) body(i int) Module {
 		// after evaluation of the whole static graph, the entry exercises every deferred reader it can reach
 		for _, e := range g.edges[i] {
 			if e.Kind == ImportStar && g.kinds[e.To] == ESM {
-				w(`log("%s:late", ns%d_in%d.read%d(), ns%d_in%d.c%d);`, tag, e.To, i, e.To, e.To, i, e.To)
+				if g.cfg.DeferLive {
+					w(`log("%s:late", ns%d_in%d.read%d());`, tag, e.To, i, e.To)
+				} else {
+					w(`log("%s:late", ns%d_in%d.read%d(), ns%d_in%d.c%d);`, tag, e.To, i, e.To, e.To, i, e.To)
+				}
 			}
 		}
 	}
